@@ -50,6 +50,12 @@ theorem gen_close_probe :
     (so that the zeros decoded before an error are not lost; see `sparse_exact_on_error`). -/
 theorem gen_fail_flush : genCfg.failFlush = true := by decide
 
+/-- The real `message_warning()` / `message_error()` (message.c) at every verbosity level V_SILENT … V_DEBUG leave the
+    exit status `Sparse.messageExit` says — E_WARNING / E_ERROR whether or not the text was printed. -/
+theorem gen_msg_exit :
+    Gen.C18.msgExitTable.all msgExitRowOk = true ∧ Gen.C18.msgExitTable.map (·.1) = [0, 1, 2, 3, 4]
+      ∧ Gen.C18.verbosityLevels = [0, 1, 2, 3, 4] := by decide
+
 theorem gen_cfg : genCfg.bufSize = 8192 ∧ genCfg.pendingMax = 2 ^ 62 := by decide
 
 /-! ### The sparse writer -/
@@ -323,6 +329,37 @@ theorem xz_file_error_iff (cfg : Cfg) (o : Opts) (fi : FileIn) (out : Dest) (hfi
     · simp [hi, List.mem_replicate]
       omega
 
+/-! ### Verbosity -/
+
+/-- **verdict_independent_of_verbosity.** `-q` / `-v`, however often, change only what is printed: the bytes delivered,
+    the files created, the system calls, the messages raised and the exit status of a run are the same at every
+    verbosity level (in particular `-qq` cannot turn an error or a warning into exit status 0). -/
+theorem verdict_independent_of_verbosity (cfg : Cfg) (o : Opts) (v : Nat) (files : List FileIn) (out : Dest) :
+    xzRun cfg { o with verbosity := v } files out = xzRun cfg o files out ∧
+    xzExit { o with verbosity := v } (xzRun cfg { o with verbosity := v } files out) = xzExit o (xzRun cfg o files out) ∧
+    xzExit o (xzRun cfg o files out) = finalExit o.noWarn (exitOfMsgs (xzRun cfg o files out).msgs) := by
+  have hrun : ∀ (files : List FileIn) (prev : Bool) (out : Dest),
+      xzRunFrom cfg { o with verbosity := v } prev files out = xzRunFrom cfg o prev files out := by
+    intro files
+    induction files with
+    | nil => intro _ _; rfl
+    | cons fi rest ih =>
+      intro prev out
+      simp only [xzRunFrom]
+      have h1 : coderInitFlag { o with verbosity := v } fi prev = coderInitFlag o fi prev := rfl
+      have h2 : ∀ a, xzFileWith cfg { o with verbosity := v } fi out a = xzFileWith cfg o fi out a := fun _ => rfl
+      rw [h1, h2, ih]
+  have h := hrun files false out
+  refine ⟨h, ?_, rfl⟩
+  unfold xzRun at *
+  rw [h]
+  rfl
+
+/-- Only the number of diagnostic lines depends on the level: errors are printed from V_ERROR up, warnings from V_WARNING up. -/
+theorem printed_iff (verbosity : Nat) (m : Msg) :
+    m.printed verbosity = true ↔ (m = .error ∧ 1 ≤ verbosity) ∨ (m = .warning ∧ 2 ≤ verbosity) := by
+  cases m <;> simp [Msg.printed, Msg.level] <;> exact ⟨of_decide_eq_true, decide_eq_true⟩
+
 /-! ### Several files in one invocation -/
 
 /-- `allow_trailing_input` is per file: whatever the previous file of the invocation left in the static variable
@@ -354,6 +391,7 @@ theorem multi_file_exit (cfg : Cfg) (o : Opts) (files : List FileIn) (out : Dest
       (Msg.error ∉ (xzRunFold cfg o files out).msgs ∧ (Msg.warning ∉ (xzRunFold cfg o files out).msgs ∨ o.noWarn = true))) := by
   unfold xzExit xzRun
   rw [multi_file_is_fold]
+  show (finalExit o.noWarn (exitOfMsgs _) = 1 ↔ _) ∧ (finalExit o.noWarn (exitOfMsgs _) = 0 ↔ _)
   obtain ⟨h0, h1, _⟩ := exit_status_iff o.noWarn (xzRunFold cfg o files out).msgs
   exact ⟨by simpa using h1, h0⟩
 
